@@ -2,6 +2,8 @@
 
 package packet
 
+import "sync"
+
 // Exports for the host/MAC table correspondence (C04, C05, C06). Injected at build time with
 // `go build -tags verif -overlay`; nothing here exists in /repo.
 
@@ -14,6 +16,19 @@ func (host *Host) VerifSetDirty(b bool) { host.dirty = b }
 // VerifFlags returns the processing flags Parse left in the frame (0x01 = online transition).
 func (frame Frame) VerifFlags() uint { return frame.flags }
 
+// verifTimersStopped records the sessions whose closeChan was already closed by VerifStopTimers.
+var verifTimersStopped sync.Map
+
+// VerifStopTimers ends the two background goroutines NewSession starts (the minute loop that runs
+// purge(time.Now()) and the NIC monitor that SIGTERMs the process when no IP packet was parsed for
+// three minutes). The harness drives purge explicitly on a virtual clock; a wall-clock purge in the
+// background would change the tables between two observations.
+func (h *Session) VerifStopTimers() {
+	if _, done := verifTimersStopped.LoadOrStore(h, true); !done {
+		close(h.closeChan)
+	}
+}
+
 // VerifStop ends the session's goroutines and closes the connection without the one second
 // sleep of Close and without closing the notification channel.
 func (h *Session) VerifStop() {
@@ -21,6 +36,7 @@ func (h *Session) VerifStop() {
 		return
 	}
 	h.closed = true
-	close(h.closeChan)
+	h.VerifStopTimers()
+	verifTimersStopped.Delete(h)
 	h.Conn.Close()
 }
